@@ -24,8 +24,9 @@ ID = "C01"
 RULE = ("Hypothesis: products of 2-8 creation/annihilation operators on "
         "occ/virt/general indices (distinct or repeated), random grouping of "
         "consecutive operators into NO(...) groups, 0-3 coefficient tensors "
-        "wired to operator indices (Einstein convention over the input "
-        "term, every summed index on >= 1 tensor), optional rule sets (RE "
+        "(incl. Kronecker deltas) wired to operator indices (Einstein "
+        "convention over the input term, every summed index on >= 1 "
+        "non-delta tensor), optional rule sets (RE "
         "rule sets and generated ones). Oracle: for every assignment of spin "
         "orbitals to the operator indices the Fermi-vacuum expectation value "
         "by bit-string algebra (literal normal ordering, no contractions), "
@@ -43,7 +44,8 @@ ASSUMPTIONS = ["indices without spin (contractions are documented as not "
 
 TENSORS = [("A", "f", 1, 1), ("A", "V", 2, 2), ("A", "d", 1, 1),
            ("A", "d", 2, 2), ("T", "t1", 2, 2), ("T", "t2", 1, 1),
-           ("N", "x", 2, 0), ("N", "z", 1, 0), ("T", "X", 1, 1)]
+           ("N", "x", 2, 0), ("N", "z", 1, 0), ("T", "X", 1, 1),
+           ("K", "delta", 2, 0)]
 RULESETS = [None, None, None,
             {"f": ["ov", "vo"],
              "V": ["ooov", "oovv", "ovvv", "ovoo", "vvoo", "vvov"]},
@@ -129,6 +131,13 @@ def st_case(draw):
                 lbl = fresh(draw(st.sampled_from(spaces if name not in
                                                  ("X",) else ["occ", "virt"])))
             slots.append(lbl)
+        if kind == "K":
+            # a delta of the commuting part: indices of one space (or a
+            # general one), not twice the same index
+            (s0, _), (s1, _) = label_class(slots[0]), label_class(slots[1])
+            if slots[0] == slots[1] or \
+                    (s0 != s1 and "general" not in (s0, s1)):
+                slots[1] = fresh(s0)
         tensors.append({"k": kind, "name": name, "u": slots[:nu],
                         "l": slots[nu:], "bk": 0, "exp": 1})
     for lbl in forced:   # make sure a repeated operator label is on a tensor
@@ -231,7 +240,8 @@ def run_case(case):
     for t in case["tensors"]:
         for l in t["u"] + t["l"]:
             cnt[l] += 1
-    on_tensor = {l for t in case["tensors"] for l in t["u"] + t["l"]}
+    on_tensor = {l for t in case["tensors"] if t["k"] != "K"
+                 for l in t["u"] + t["l"]}
     for l, n in cnt.items():
         if n >= 2 and l not in on_tensor:
             raise BadCase("summed index on operators only")
@@ -322,7 +332,9 @@ def run_case(case):
                      (free_gen_on_op, "free_general_on_operator"),
                      (bool(case["groups"]), "NO_group"),
                      (rule_hit > 0, "rule_hit"), (nz_max == 0, "vev_zero"),
-                     (bool(case["tensors"]), "with_tensors")):
+                     (bool(case["tensors"]), "with_tensors"),
+                     (any(t["k"] == "K" for t in case["tensors"]),
+                      "delta_in_commuting_part")):
         if flag:
             r.cls(nm)
     return r
